@@ -5,7 +5,7 @@ D=/verif/seeded/$1
 P=${2:-$(python3 -c "import json;print(json.load(open('$D/meta.json'))['property'])")}
 T=$(mktemp -d /tmp/govc-try-XXXXXX)
 trap 'rm -rf "$T"' EXIT
-cp -r /repo "$T/repo"; rm -rf "$T/repo/.git"
+cp -r "${BASE:-/repo}" "$T/repo"; rm -rf "$T/repo/.git"
 (cd "$T/repo" && git init -q && git apply "$D/patch.diff")
 export GOFLAGS=-mod=mod GOPROXY=off GOSUMDB=off GOTOOLCHAIN=local
-/verif/bin/govc -repo "$T/repo" -verif /verif -prop "$P" -no-evidence -replaydir "$T/replay" 2>&1 | grep -v "^VIOLATION" | tail -${TAILN:-6} | cut -c1-300
+${GOVC:-/verif/bin/govc} -repo "$T/repo" -verif /verif -prop "$P" -no-evidence -replaydir "$T/replay" 2>&1 | grep -v "^VIOLATION" | tail -${TAILN:-6} | cut -c1-300
